@@ -77,6 +77,17 @@ def headers_from_dict(d):
                 target.append("%snamespace %s {" % (pad, decl.split()[1]))
                 emit(e.get("declarations", []), target, indent + 1)
                 target.append("%s}" % pad)
+            elif decl.startswith("struct ") and language == "c":
+                # C code names the struct without the keyword
+                sn = decl.split()[1]
+                target.append("%stypedef struct %s %s;" % (pad, sn, sn))
+                target.append("%s%s;" % (pad, strip_attrs(decl)))
+            elif decl.startswith("template"):
+                # a function template is defined inline (no explicit instantiation needed by the stub)
+                d = strip_attrs(decl)
+                ret = re.sub(r"^template\s*<[^>]*>\s*", "", d).split("(")[0].split()
+                body = "{}" if ret[0] == "void" else "{ return 0; }"
+                target.append("%s%s %s" % (pad, d, body))
             else:
                 target.append("%s%s;" % (pad, strip_attrs(decl)))
             if e.get("cpp_if"):
@@ -102,7 +113,7 @@ FUNC = re.compile(r"^(?P<ret>.*?)(?P<name>~?[A-Za-z_]\w*)\s*\((?P<params>.*)\)\s
 def _stub_function(decl, language, cls=None):
     """trivial definition of a declared function / method; None for declarations that define nothing to link"""
     d = strip_attrs(decl)
-    if re.match(r"^(enum|struct|typedef|class|namespace)\b", d):
+    if re.match(r"^(enum|struct|typedef|class|namespace|template)\b", d):
         return None
     m = FUNC.match(d)
     if not m:
